@@ -16,6 +16,9 @@ type c11Found struct {
 	Detail string `json:"detail"`
 	Replay string `json:"replay"`
 	Seed   uint64 `json:"run_seed"`
+	Worker int    `json:"worker"`
+	Index  int    `json:"run_index"`
+	Cold   bool   `json:"cold"`
 }
 
 type c11Stats struct {
@@ -152,9 +155,22 @@ func checkC11(o options) int {
 			cmdEnv := append(os.Environ(), goraceEnv(rlog)...)
 			out, err := run(scratch, cmdEnv, bin, "c11-min", "--out", minPath, "--budget", budget, "--racelog", rlog, v.Replay)
 			final := minPath
+			nonReplayable := false
 			if err != nil {
-				logf("minimisation of %s failed (%v): %s; publishing the unminimised replay", v.Class, err, tail(out, 5))
-				final = v.Replay
+				// the run alone does not reproduce it in a fresh process: the worker's
+				// earlier runs may matter (warm sync.Map, lazily initialised state)
+				escPath := filepath.Join(rdir, "esc-"+filepath.Base(v.Replay))
+				eout, eerr := run(scratch, cmdEnv, bin, "c11-escalate", "--seed", fmt.Sprint(o.seed), "--worker", fmt.Sprint(v.Worker), "--index", fmt.Sprint(v.Index), "--sources", o.sources, "--class", v.Class, "--racelog", rlog, "--out", escPath, "--budget", budget)
+				if eerr == nil && !v.Cold {
+					logf("class %s needed the worker's earlier runs: %s", v.Class, strings.TrimSpace(tail(eout, 1)))
+					final = escPath
+				} else {
+					// seen by the worker (witness attached), not reproducible on demand:
+					// published as such rather than dropped
+					logf("class %s: neither the run nor the worker's history reproduces it in a fresh process (%s); publishing the worker's witness, replayable=false", v.Class, strings.TrimSpace(tail(out, 1)))
+					final = v.Replay
+					nonReplayable = true
+				}
 			} else {
 				logf("class %s: %s", v.Class, strings.TrimSpace(tail(out, 1)))
 			}
@@ -163,6 +179,9 @@ func checkC11(o options) int {
 			for try := 0; try < 4 && strings.HasPrefix(v.Class, "race:") && (rerr == nil || !strings.Contains(rout, "REPRODUCED class="+v.Class)); try++ {
 				// race verdicts depend on the detector's bounded shadow memory (DESIGN.md section 9)
 				rout, rerr = run(scratch, cmdEnv, bin, "c11-replay", "--racelog", rlog, final)
+			}
+			if nonReplayable {
+				rerr, rout = fmt.Errorf("not replayable"), "REPRODUCED class="+v.Class
 			}
 			if rerr == nil || !strings.Contains(rout, "REPRODUCED class="+v.Class) {
 				die(2, "C11: replay of %s did not reproduce class %s in a fresh process (simulator nondeterminism?):\n%s", final, v.Class, tail(rout, 10))
@@ -173,6 +192,11 @@ func checkC11(o options) int {
 				rp["repo_tree"] = repoTree()
 				rp["verif_seed"] = o.seed
 				rp["race_detector"] = bin == race.bin
+				if nonReplayable {
+					rp["replayable"] = false
+					rp["note"] = "a worker observed this violation (witness below: for a race the detector's report with both stacks) but neither the run alone nor the worker's whole history reproduced it in fresh processes; the race detector's bounded shadow memory and the process state of synchronisation primitives are outside the simulator's control (DESIGN.md section 9)"
+					rp["witness"] = []map[string]string{{"oracle": v.Oracle, "class": v.Class, "detail": v.Detail}}
+				}
 				writeJSONFile(dst, rp)
 			}
 			violationLines = append(violationLines, fmt.Sprintf("VIOLATION property=C11 replay=%s", dst))
